@@ -116,7 +116,11 @@ func (d *zzDumper) val(v reflect.Value, depth int) interface{} {
 		if v.IsNil() {
 			return nil
 		}
-		return map[string]interface{}{"fn": fmt.Sprintf("%d", v.Pointer())}
+		name := ""
+		if f := runtime.FuncForPC(v.Pointer()); f != nil {
+			name = f.Name()
+		}
+		return map[string]interface{}{"fn": name}
 	}
 	return map[string]interface{}{"x": v.Kind().String()}
 }
@@ -147,7 +151,7 @@ func (eng *Engine) dumpGlobals(pkgPath string, names []string) (*tableDump, erro
 	}
 	pkgDir := filepath.Dir(pkg.GoFiles[0])
 	var sb strings.Builder
-	fmt.Fprintf(&sb, "package %s\n\nimport (\n\t\"encoding/json\"\n\t\"fmt\"\n\t\"reflect\"\n\t\"testing\"\n\t\"unsafe\"\n)\n\nvar _ unsafe.Pointer\n", pkg.Name)
+	fmt.Fprintf(&sb, "package %s\n\nimport (\n\t\"encoding/json\"\n\t\"fmt\"\n\t\"reflect\"\n\t\"runtime\"\n\t\"testing\"\n\t\"unsafe\"\n)\n\nvar _ unsafe.Pointer\n", pkg.Name)
 	sb.WriteString(dumpHelper)
 	sb.WriteString("\nfunc TestZZGovcDump(t *testing.T) {\n\td := &zzDumper{objs: map[string]interface{}{}, ids: map[uintptr]string{}}\n\troots := map[string]interface{}{}\n")
 	for _, n := range names {
@@ -305,6 +309,18 @@ func (dl *dumpLoader) value(raw json.RawMessage, t types.Type) (*Term, bool) {
 				return nil, false
 			}
 			return RealLitRat(r), true
+		}
+		return nil, false
+	case *types.Signature:
+		// a function value: the named function it holds (identity only)
+		var m map[string]string
+		if json.Unmarshal(raw, &m) != nil || m["fn"] == "" {
+			return nil, false
+		}
+		for _, f := range vc.eng.AllFuncs {
+			if f.Parent() == nil && f.String() == m["fn"] {
+				return vc.eng.funcIDTerm(f), true
+			}
 		}
 		return nil, false
 	case *types.Pointer:
